@@ -239,6 +239,17 @@ def first_seen(ctx, fn, rule='T23'):
             if not isinstance(n, ast.If):
                 continue
             cs = conjuncts(n.test)
+            # contradiction: `if x in S: S.add(x)` -- recording as seen what the guard just found to be seen already
+            for c in cs:
+                if isinstance(c, ast.Compare) and len(c.ops) == 1 and isinstance(c.ops[0], ast.In) and \
+                        isinstance(c.comparators[0], ast.Name) and c.comparators[0].id in sets:
+                    s2, x2 = c.comparators[0].id, txt(c.left)
+                    top_add = any(adds_in([st], s2, x2) is not None and not isinstance(st, (ast.If, ast.For, ast.While, ast.Try))
+                                  for st in n.body)
+                    if top_add and adds_in(n.orelse, s2, x2) is None:
+                        found += 1
+                        ctx.ob(rule, fn.fq, '`%s` is added to the seen-set `%s` only under `%s` (where it already is a member): items are '
+                               'never recorded on first sight' % (x2, s2, txt(c)), False, loc='%s:%d' % (fn.module.relpath, n.lineno))
             for c in cs:
                 if isinstance(c, ast.Compare) and len(c.ops) == 1 and isinstance(c.ops[0], ast.NotIn) and \
                         isinstance(c.comparators[0], ast.Name) and c.comparators[0].id in sets:
@@ -417,3 +428,21 @@ def sources_consumed(ctx, fn, sources, rule='T9.consume'):
                     for c in ast.walk(fn.node))
         ctx.ob(rule, fn.fq, 'every element of the source `%s` is fed into self (a loop over it stores/adds, or it is handed to another '
                'bulk method)' % s_, fed or whole, loc=fn.loc, detail='loops over it: %d' % len(loops))
+
+        def deletes_self(body):
+            return any(isinstance(x, ast.Delete) and any(isinstance(t, ast.Subscript) and txt(t.value) == 'self' for t in x.targets)
+                       or (isinstance(x, ast.Call) and isinstance(x.func, ast.Attribute) and txt(x.func.value) == 'self' and
+                           x.func.attr in ('discard', 'remove', 'pop', 'popall', '_discard')) for st in body for x in ast.walk(st))
+        self_aliases = {a.targets[0].id for a in ast.walk(fn.node) if isinstance(a, ast.Assign) and len(a.targets) == 1 and
+                        isinstance(a.targets[0], ast.Name) and isinstance(a.value, ast.Attribute) and txt(a.value.value) in ('self', 'super()')}
+
+        def calls_self(body):
+            return any(isinstance(x, ast.Call) and ((isinstance(x.func, ast.Attribute) and txt(x.func.value) in ('self', 'super()')) or
+                                                    (isinstance(x.func, ast.Name) and x.func.id in self_aliases))
+                       for st in body for x in ast.walk(st))
+        for n in loops:
+            if isinstance(n, ast.For) and not writes_self(n.body) and not deletes_self(n.body) and not calls_self(n.body) and \
+                    not any(isinstance(x, (ast.Yield, ast.Return, ast.Raise)) for st in n.body for x in ast.walk(st)) and \
+                    not any(isinstance(x, ast.Call) and call_name(x) == 'hash' for st in n.body for x in ast.walk(st)):
+                ctx.ob(rule, fn.fq, 'a loop over the source `%s` neither stores into self nor removes from it (its elements are dropped)' % s_,
+                       False, loc='%s:%d' % (fn.module.relpath, n.lineno))
